@@ -713,6 +713,11 @@ def _solve_one(args):
             attempts.append(f"z3[nl-abstraction]={r0}")
             if r0 == z3.unsat:
                 return (idx, "discharged", "z3+nl-abstraction", time.time() - t0, None, " ".join(attempts))
+            # second stage: products of >= 3 factors additionally tied to a symmetric (order-independent) abstraction
+            r0s, _ = _z3_retry(T.abstract_nonlinear(fs, symmetric=True), min(timeout_ms, 8000), seeds=(0, 7))
+            attempts.append(f"z3[nl-abstraction+sym]={r0s}")
+            if r0s == z3.unsat:
+                return (idx, "discharged", "z3+nl-abstraction", time.time() - t0, None, " ".join(attempts))
         except Exception as e:
             attempts.append(f"nl-abstraction-error={type(e).__name__}:{e}")
     abstracted = _has_abstractions(fs)
@@ -811,6 +816,8 @@ def _hinted(ob, tag, trig, timeout_ms):
         return _z3_check(T.abstract_nonlinear([z3.simplify(f) for f in ob.formulas(extra_trig=trig, instantiate=True)]), min(timeout_ms, 15000))[0]
     if tag == "z3[nl-abstraction]":
         return _z3_retry(T.abstract_nonlinear(ob.formulas(extra_trig=False)), min(timeout_ms, 12000))[0]
+    if tag == "z3[nl-abstraction+sym]":
+        return _z3_retry(T.abstract_nonlinear(ob.formulas(extra_trig=False), symmetric=True), min(timeout_ms, 12000))[0]
     if tag == "z3":
         return _z3_retry(ob.formulas(extra_trig=False), min(timeout_ms, 8000))[0]
     if tag in ("z3[trig]", "z3[full]"):
